@@ -3970,7 +3970,12 @@ fintEval_(DataObj retDataObj)
 			fintBlock(ok, val, exn, fintDoCall0(&clos, retDataObj));
 			rets = fintAlloc(union dataObj, 3);
 			rets[0].fiSInt  = ok;
-			rets[1].fiWord  = retDataObj->fiWord;
+			/* No value after an exception: retDataObj holds
+			 * whatever was there before.  The optimiser may
+			 * move the value into a typed local before testing
+			 * `ok', and a store into a BInt local copies (i.e.
+			 * dereferences) it, so give it a valid one. */
+			rets[1].fiWord  = ok ? retDataObj->fiWord : (FiWord) bint0;
 			rets[2].fiWord  = exn;
 			retDataObj->ptr = rets;
 		}
